@@ -129,7 +129,7 @@ def run(chk):
                        "timestamps is outside the model", "the download/extract/install path after the decision gate is not modelled"]
     chk.prove()
     rng = chk.rng
-    vs = version_strings(rng, 400 if chk.thorough else 60)
+    vs = version_strings(rng, 1500 if chk.thorough else 60)
     lines, meta = [], []
     for s in vs:
         lines.append("upd semver " + hx(s)); meta.append(("semver", s))
@@ -144,10 +144,10 @@ def run(chk):
     pair_set = (vs[:45] + boundary) if not chk.thorough else (vs[:80] + boundary)
     for a, b in itertools.product(pair_set, pair_set):
         lines.append("upd cmp %s %s" % (hx(a), hx(b))); meta.append(("cmp", a, b))
-    for content, asset in checksum_cases(rng, 3000 if chk.thorough else 400):
+    for content, asset in checksum_cases(rng, 20000 if chk.thorough else 400):
         lines.append("upd checksum %s %s" % (hx(content), hx(asset))); meta.append(("checksum", content, asset))
     now0 = 1_900_000_000
-    for _ in range(2000 if chk.thorough else 300):
+    for _ in range(15000 if chk.thorough else 300):
         lat, cur = rng.choice(vs[:60]), rng.choice(vs[:60])
         gap = rng.choice([0, 1, W - 1, W, W + 1, 2 * W, rng.randrange(0, 3 * W), -5])
         lines.append("upd notice %s %s %d %d" % (hx(lat), hx(cur), now0, now0 - gap)); meta.append(("notice", lat, cur, gap))
@@ -228,7 +228,7 @@ def run(chk):
 def run_sequences(chk, scratch, vs):
     """Sequences of invocations; between invocations time advances by a chosen amount (the cache file's ages grow)."""
     rng = chk.rng
-    nseq = 60 if chk.thorough else 12
+    nseq = 400 if chk.thorough else 12
     hp = LineProc([harness(), scratch])
     dp = LineProc(buildlib.driver_path())
     bad = dis = None
